@@ -112,7 +112,10 @@ func nest(path []string, v *LNode) *LNode {
 
 // tShapes builds the tree shapes for one path and value.
 func tShapes(x *X, path []string, v func() *LNode) *LNode {
-	switch x.Free(5, "tree shape") {
+	switch x.Free(6, "tree shape") {
+	case 5:
+		// keys holding control characters, quotes and non-ASCII around the path
+		return LO("ta\tb\u0001", nest(path, v()), "q\"uo\\te é日", LS("x"))
 	case 0:
 		return nest(path, v())
 	case 1:
